@@ -5,7 +5,7 @@ from types import SimpleNamespace
 
 from symex.api import Case
 from symex import refs
-from harness.svcommon import make_data, build_sv_impl, with_krylov_stub, h_ref_step
+from harness.svcommon import make_data, build_sv_impl, with_krylov_stub, h_ref_step, sv_stub_config
 from harness.mpscommon import build_mps_impl, mps_config
 
 PROPERTY = "C04"
@@ -32,7 +32,7 @@ def sv_decision_table(n):
         eig = env.choice("eigenstates", [["r", "g"], ["r", "g", "x"], ["0", "1"], ["0", "1", "x"]])
         data, sym = make_data(env, n, 1, last_time=40)
         data = dataclasses.replace(data, hamiltonian_type=getattr(pa.HamiltonianType, kind), eigenstates=eig)
-        cfg = SimpleNamespace(gpu=False, initial_state=None, krylov_tolerance=1e-8, observables=[])
+        cfg = sv_stub_config(initial_state=None)
         supported = kind == "Rydberg" and eig == ["r", "g"]
         if env.mutant("xy_is_fine"):
             supported = supported or (kind == "XY" and len(eig) == 2)
